@@ -19,7 +19,8 @@ BUDGET = {"quick": 700, "thorough": 20000}
 SOFT = {"quick": 50.0, "thorough": 900.0}
 REQUIRED = ["map:translate", "map:rotate", "map:scale", "map:mirror", "via:method", "via:transform-list", "origin:none",
             "origin:given", "judged:vertices", "judged:edges", "judged:copy-independent", "judged:arguments-unchanged",
-            "judged:direct-curve", "judged:constructor-arrays", "judged:copy-projected-original-unchanged", "entity:shape", "entity:operation", "entity:sketch", "entity:stack", "composition:2+"]
+            "judged:direct-curve", "judged:constructor-arrays", "judged:copy-projected-original-unchanged", "history:assembled-before-the-transformation",
+            "judged:built-in-geometry-follows", "entity:shape", "entity:operation", "entity:sketch", "entity:stack", "composition:2+"]
 MIN_KEYS = 80
 RULE = (
     "entity zoo (Point, Face / Loft carrying each edge kind, Box / Extrude / Revolve / Wedge, curves (discrete, linear / spline "
@@ -125,6 +126,7 @@ def make_entity(e, cb):
         centre = list(np.mean(np.array(pts), axis=0))
         bottom_edges, top_edges, side = [None] * 4, [None] * 4, {}
         slots = [("b", 0), ("t", 2), ("s", 1), ("b", 3), ("t", 1), ("s", 3)]
+        rng.shuffle(slots)  # any kind can land on a bottom, top or side edge
         for kind, (where, i) in zip(e["edge_kinds"], slots):
             if where == "b":
                 c1, c2 = i, (i + 1) % 4
@@ -390,6 +392,35 @@ def _norm_label(lb):
     return re.sub(r"_\d{6,}$", "_<id>", lb)
 
 
+def _sphere_params(lines):
+    centre = radius = None
+    for ln in lines:
+        parts = ln.replace("(", " ").replace(")", " ").split()
+        if parts[0] in ("origin", "centre") and len(parts) == 4:
+            centre = np.array([float(x) for x in parts[1:]])
+        if parts[0] == "radius":
+            radius = float(parts[1])
+    return centre, radius
+
+
+def builtin_geometry_follows(ctx, cx, cy, A, scale_total, tol, tag, mkinds):
+    """a geometry a built-in shape declares (searchableSphere) moves and scales with the shape"""
+    gx = [v for k, v in cx["geometry"].items() if _norm_label(k) != k]
+    gy = [v for k, v in cy["geometry"].items() if _norm_label(k) != k]
+    if len(gx) != 1 or len(gy) != 1:
+        return True
+    (c0, r0), (c1, r1) = _sphere_params(gx[0]), _sphere_params(gy[0])
+    if c0 is None or c1 is None or r0 is None or r1 is None:
+        return True
+    ctx.count("judged:built-in-geometry-follows")
+    if np.linalg.norm(A(c0) - c1) > tol * 4 + 1e-7 or abs(r1 - r0 * scale_total) > 1e-6 * r0 * scale_total + 1e-8:
+        has_mirror = "mirror" if any(m.startswith("mirror") for m in mkinds) else "no-mirror"
+        ctx.violation(f"built-in-geometry-not-transformed:{tag}:{has_mirror}",
+                      f"{mkinds}: declared sphere centre {c1.tolist()} radius {r1}, the transformed original has centre {A(c0).tolist()} radius {r0 * scale_total}")
+        return False
+    return True
+
+
 def labels_defined(ctx, c, tag, what):
     """every label a built-in shape projects to must be declared by the same entity"""
     builtin = {lb for lb in c["labels_used"] if _norm_label(lb) != lb}
@@ -431,6 +462,14 @@ def run_case(ctx, case):
     snaps = []
     steps = []
     scale_total = 1.0
+    if (e["seed"] % 4 == 0 or (g == "shape" and e["seed"] % 2 == 0)) and g not in ("point", "curve"):
+        # history: the entity has already been assembled once (as a script that writes, transforms and writes again does);
+        # nothing derived at that time may survive the transformation
+        try:
+            content(meshable(Y, extra, cb) if (extra is None or extra[0] == "sketch") else [cb.Loft(Y.copy(), cb.Face(extra[1]))], cb)
+            ctx.count("history:assembled-before-the-transformation")
+        except Exception:  # noqa: BLE001
+            raise
     if via == "method":
         for m in maps:
             centre = own_centre(Y, g)
@@ -509,6 +548,8 @@ def run_case(ctx, case):
     if not compare(ctx, cx, cy, A, scale_total, tol, tag, mkinds, via):
         return
     if not labels_defined(ctx, cy, tag, "transformed"):
+        return
+    if not builtin_geometry_follows(ctx, cx, cy, A, scale_total, tol, tag, mkinds):
         return
     if e["seed"] % 3 == 0 or g in ("shape", "face"):
         copy_check(ctx, e, cb, tag, extra)
